@@ -126,6 +126,29 @@ def pairsOfJson (j : Json) : Sites.GoMap :=
     | _ => none
   | _ => []
 
+/-- the grammar's reading of several env files of one include entry (values are ASTs; `Spec/Template.lean` only) -/
+def specFile2 (environment envMap : Sites.GoMap) : List (Str × List Seg) → Sites.GoMap → Sites.FileRes
+  | [], acc => .ok acc
+  | (k, t) :: r, acc =>
+    match evalOut (Sites.layered [environment, envMap, acc]) t with
+    | .ok v => specFile2 environment envMap r ((k, v) :: acc)
+    | o => .fail o
+def specFiles (environment : Sites.GoMap) : List (List (Str × List Seg)) → Sites.GoMap → Sites.FileRes
+  | [], em => .ok em
+  | f :: fs, em =>
+    match specFile2 environment em f [] with
+    | .ok m => specFiles environment fs (m ++ em)
+    | .fail o => .fail o
+
+def rawLinesOfJson (a : Array Json) : Option (List (Str × List Seg)) :=
+  a.toList.mapM fun l =>
+    let la : List Json := match l.getObjVal? "ast" with
+      | .ok (.arr x) => x.toList
+      | _ => []
+    match la.mapM segOfJson with
+    | some t => some ((getStr l "k").toList, t)
+    | none => none
+
 /-- `env`: the project environment; `layers`: the env files of the enclosing include entries, outermost first.
     Answers with the grammar's verdict in the environment the *glue model* builds (`includeChain` + `lookupEnv`)
     and with the model of the code at that site (`siteSubst`). -/
@@ -147,10 +170,26 @@ def substSite : Handler := fun args =>
       | some t => some ((getStr l "k").toList, t)
       | none => none
     | _ => none
+  let rawFiles : Option (List (List (Str × List Seg))) := match args.getObjVal? "raw2" with
+    | .ok (.arr fs) => fs.toList.mapM fun f => match f with
+      | .arr a => rawLinesOfJson a
+      | _ => none
+    | _ => none
   match ast with
   | some a =>
     match a.mapM segOfJson with
     | some t =>
+      match rawFiles with
+      | some files =>
+        -- site `include-raw2`: several env files in one include entry, values are templates
+        let wfAll := files.all fun f => f.all fun l => WF l.2
+        let eval := match specFiles envMap files [] with
+          | .ok f => evalOut (Sites.layered [envMap, f]) t
+          | .fail o => o
+        let model := Sites.siteSubstRawFiles envMap (files.map fun f => f.map fun l => (l.1, renderL l.2)) (renderL t)
+        Json.mkObj [("wf", Json.bool (WF t && wfAll)), ("wf_ml", Json.bool (WFml t && wfAll)), ("rendered", str (renderL t)),
+          ("eval", outJson eval), ("model", outJson model)]
+      | none =>
       match rawLines with
       | some lines =>
         -- site `include-raw`: one env file whose values are templates themselves
